@@ -121,6 +121,10 @@ fn has_whole_line_range(t: &str) -> bool {
 
 fn gen(rng: &mut rand::rngs::StdRng, nsheets: u32, arrays: bool) -> Cells {
     let mut cells = gen_acyclic(rng, nsheets);
+    // x+(y+z) is re-printed as x+y+z by a reload (the printer behaviour pinned by a test and
+    // listed under C09): after catastrophic cancellation or with two different errors the
+    // re-associated formula legitimately computes something else, so that shape is left to C09
+    cells.retain(|x| !x.3.contains("+("));
     if arrays {
         // whole-column / whole-row ranges would reach down into the array blocks and close cycles
         cells.retain(|x| !has_whole_line_range(&x.3));
